@@ -37,6 +37,18 @@ func tarProbe(b []byte, e *deb.ArEntry, m *memObs) {
 	if gen.ArmTarName(e.Name) && thirdPartyExt(e.Name) {
 		return
 	}
+	if !gen.ArmTarName(e.Name) {
+		// not a tar by name: the call is expected to refuse at once; no watchdog goroutine for this common case
+		var err error
+		if p, msg := mc.Guard(func() { _, _, err = e.Tarfile() }); p {
+			m.TarOut = "panic: " + msg
+			return
+		}
+		if err != nil {
+			m.TarOut = "error"
+			return
+		}
+	}
 	out := "hang"
 	fin := mc.WithTimeout(HangGuard, func() {
 		res := ""
